@@ -151,6 +151,17 @@ MUTANTS = [
     ("c20_roll_ignores_factor", ["C20"], "bt/algos.py", "                new_quantity = sec_fields[\"factor\"] * target[sec_name].position", "                new_quantity = target[sec_name].position"),
     ("c20_roll_repeats", ["C20"], "bt/algos.py", "            if sec_fields[\"date\"] <= target.now:\n                target.perm[\"rolled\"].add(sec_name)", "            if sec_fields[\"date\"] <= target.now:\n                pass"),
     ("c20_roll_keeps_source", ["C20"], "bt/algos.py", "                    transactions[new_sec] = new_quantity\n                target.close(sec_name, update=False)", "                    transactions[new_sec] = new_quantity"),
+    # ---- C10
+    ("c10_no_nan_price_guard", ["C10"], "bt/core.py", "        if is_zero(self._price) or np.isnan(self._price):\n            raise Exception(\"Cannot allocate capital", "        if False:\n            raise Exception(\"Cannot allocate capital"),
+    ("c10_nan_position_value_zero", ["C10"], "bt/core.py", "            if is_zero(self._position):\n                self._value = 0\n            else:\n                raise Exception(\"Position is open", "            if True:\n                self._value = 0\n            else:\n                raise Exception(\"Position is open"),
+    ("c10_nan_coupon_silent", ["C10"], "bt/core.py", "            if is_zero(self._position):\n                self._coupon = 0.0\n            else:\n                raise Exception(\"Position is open (non-zero) and latest coupon", "            if True:\n                self._coupon = 0.0\n            else:\n                raise Exception(\"Position is open (non-zero) and latest coupon"),
+    ("c10_duplicate_columns_accepted", ["C10"], "bt/backtest.py", "        if data.columns.duplicated().any():", "        if False and data.columns.duplicated().any():"),
+    ("c10_zero_base_ret_zero", ["C10"], "bt/core.py", "                    if is_zero(self._value):\n                        ret = 0\n                    else:\n                        raise ZeroDivisionError(", "                    if True:\n                        ret = 0\n                    else:\n                        raise ZeroDivisionError("),
+    ("c10_fi_zero_base_ret_zero", ["C10"], "bt/core.py", "                    if is_zero(pnl):\n                        ret = 0\n                    else:\n                        raise ZeroDivisionError(", "                    if True:\n                        ret = 0\n                    else:\n                        raise ZeroDivisionError("),
+    ("c10_fi_nesting_allowed", ["C10"], "bt/core.py", "        if self.fixed_income and not self.parent.fixed_income:", "        if False and self.fixed_income and not self.parent.fixed_income:"),
+    ("c10_custom_price_no_check", ["C10"], "bt/core.py", "        if price is not None and not self._bidoffer_set:", "        if False and price is not None and not self._bidoffer_set:"),
+    ("c10_stats_inf", ["C10"], "bt/core.py", "        self._cash.array[inow] = self._capital\n", "        self._cash.array[inow] = self._capital if self._capital >= 0 else np.nan\n"),
+    ("c10_values_read_only_again", ["C10"], "bt/core.py", "        self._positions.array[inow] = self._position\n", "        self._positions.values[inow] = self._position\n"),
     # ---- C08
     ("c08_fee_reset_every_update", ["C08", "C07"], "bt/core.py", "        # update now\n        self.now = date\n        if inow is None:\n            if self.now == 0:\n                inow = 0\n            else:\n                inow = self.data.index.get_loc(date)\n\n        # update children if any and calculate value", "        # update now\n        self.now = date\n        self._last_fee = 0.0\n        if inow is None:\n            if self.now == 0:\n                inow = 0\n            else:\n                inow = self.data.index.get_loc(date)\n\n        # update children if any and calculate value"),
     ("c08_outlay_row_accumulates", ["C08", "C07"], "bt/core.py", "            self._outlays.array[inow] += self._outlay\n            # reset outlay back to 0\n            self._outlay = 0\n", "            self._outlays.array[inow] += self._outlay\n"),
